@@ -440,6 +440,21 @@ func checkStringify(c stringifyCase) harness.Outcome {
 	add(len(res.Gap) > 0, "gap:"+strconv.Itoa(len(res.Gap)))
 	add(len(res.Gap) > 0 && !allJSONWhite(res.Gap), "gap-not-white-space")
 
+	if m11.HasLone(res.Gap) {
+		// the cut after 10 code units fell between the halves of a surrogate pair: the expected gap ends with a lone high
+		// surrogate, which otto's UTF-8 store can only hold as U+FFFD (same length)
+		o.Classes = append(o.Classes, "gap-cut-inside-surrogate-pair")
+		if harness.Known(kLone) {
+			res.Gap = m11.MapLone16(res.Gap)
+			o.Excluded = append(o.Excluded, kLone)
+		}
+	}
+	for _, u := range c.Space.S {
+		if u >= 0xD800 && u < 0xDC00 {
+			o.Classes = append(o.Classes, "space-string-with-astral")
+			break
+		}
+	}
 	if res.ListIrregular && harness.Known(kPropList) {
 		o.Excluded = append(o.Excluded, kPropList)
 		return o
